@@ -11,6 +11,8 @@ from __future__ import annotations
 
 import ast
 
+from .helpers import Every  # noqa: E402
+
 from .. import terms as T
 from ..model import AnalysisError, self_attr, stmt_text, walk_no_nested
 from ..paths import unversion
@@ -199,6 +201,7 @@ def _range(chk, ctx) -> None:
     mn, mx = sp('self.min_completion_betting_or_raising_to_amount'), sp('self.max_completion_betting_or_raising_to_amount')
     amt = ('name', 'amount')
     ok_low = ok_high = ok_default = ok_ret = False
+    ok_default = Every()
     stray = []
     for p in ctx.paths(fi):
         cs = conds_of(p)
@@ -214,7 +217,7 @@ def _range(chk, ctx) -> None:
         elif p.returned:
             r = canon_actor(unversion(p.outcome[1]))
             if is_none:
-                ok_default = r == mn
+                ok_default.see(r == mn)
             else:
                 good = r == amt and T.mk_not(T.cmp('Lt', amt, mn)) in cs and T.mk_not(T.cmp('Gt', amt, mx)) in cs
                 ok_ret |= good
@@ -356,6 +359,11 @@ def _setup_round(chk, ctx) -> None:
     i = ('elem', ('self', 'player_indices'))
     drop = sp('not self.statuses[i] or not self.stacks[i] or not self.get_effective_stack(i)', True, i=i)
     ok_q = ok_rot = ok_drop = ok_reset = ok_end = ok_bring = False
+    ok_bring = Every()
+    ok_rot = Every()
+    ok_drop = Every()
+    ok_q = Every()
+    ok_end = Every()
     for p in ctx.paths(fi):
         if p.raised:
             continue
@@ -364,14 +372,14 @@ def _setup_round(chk, ctx) -> None:
             r = T.root_self_attr(e.term)
             v = unversion(e.value)
             if r == 'actor_indices' and e.op == 'set':
-                ok_q = v == T.spec('deque(self.player_indices)')
+                ok_q.see(v == T.spec('deque(self.player_indices)'))
             if r == 'actor_indices' and e.op == 'call:rotate':
-                ok_rot = v == ('tuple', (T.neg(('self', 'opener_index')),))
+                ok_rot.see(v == ('tuple', (T.neg(('self', 'opener_index')),)))
             if r == 'actor_indices' and e.op == 'call:remove':
                 cs = [unversion(c) for c in p.conds()]
-                ok_drop = drop in cs and v == ('tuple', (i,))
+                ok_drop.see(drop in cs and v == ('tuple', (i,)))
             if r == 'bring_in_status' and e.op == 'set':
-                ok_bring = v == T.spec('self.street is self.streets[0] and self.bring_in > 0', boolean=True)
+                ok_bring.see(v == T.spec('self.street is self.streets[0] and self.bring_in > 0', boolean=True))
         resets = {T.root_self_attr(e.term): (e.op, unversion(e.value)) for e in ws}
         ok_reset = resets.get('completion_betting_or_raising_amount') == ('set', T.num(0)) \
             and resets.get('completion_betting_or_raising_count') == ('set', T.num(0)) \
@@ -381,7 +389,7 @@ def _setup_round(chk, ctx) -> None:
         for c in p.calls():
             if c.value == ('self', '_update_betting'):
                 kw = dict(unversion(c.term)[4])
-                ok_end = kw.get('status') == T.spec('len(self.actor_indices) == 1 and self.bets[self.actor_indices[0]] >= max(self.bets)', boolean=True)
+                ok_end.see(kw.get('status') == T.spec('len(self.actor_indices) == 1 and self.bets[self.actor_indices[0]] >= max(self.bets)', boolean=True))
     chk.ob('C03.S10', f'State.{name}', all((ok_q, ok_rot, ok_drop, ok_reset, ok_end, ok_bring)), fi.loc,
            'a round starts with everybody from the opener clockwise, minus players who are out, have no chips, or cannot be called by anybody; '
            'it ends at once iff the only actor has already matched; raise bookkeeping is reset; the bring-in is due on the first street only',
@@ -403,13 +411,14 @@ def _effective_stack(chk, ctx) -> None:
     p_ = ('name', 'player_index')
     zero_when = T.spec('self.street_index is None or not self.statuses[player_index]', boolean=True)
     ok_zero = ok_val = ok_live = False
+    ok_zero = Every()
     for p in ctx.paths(fi):
         if not p.returned:
             continue
         cs = [unversion(c) for c in p.conds()]
         r = unversion(p.outcome[1])
         if zero_when in cs:
-            ok_zero = r == T.num(0)
+            ok_zero.see(r == T.num(0))
         elif T.mk_not(zero_when) in cs or all(x in cs for x in T.mk_not(zero_when)[1] if T.mk_not(zero_when)[0] == 'and'):
             shape = r[0] == 'min' and ('sub', ('self', 'stacks'), p_) in r[1]
             rest = [x for x in r[1] if x != ('sub', ('self', 'stacks'), p_)] if shape else []
